@@ -35,7 +35,8 @@ def shipped_core_current() -> Dict[str, Any]:
     os.dup2(dn, 2)                      # `black` reports on the real stderr
     try:
         src = C.REPO / "src" / "pyrtma"
-        oc, err = E.real_compile({"auto_pad": True, "coredefs": False}, src / "core_defs" / "core_defs.yaml", tmp,
+        # exactly as build_core_defs.sh does: from src/pyrtma, with the relative path core_defs/core_defs.yaml
+        oc, err = E.real_compile({"auto_pad": True, "coredefs": False}, Path("core_defs") / "core_defs.yaml", tmp,
                                  cwd=src, out_name="core_defs", python=True)
         if oc != ["ok"]:
             return {"ok": False, "why": "compile of the shipped core YAML failed: " + err}
